@@ -2,6 +2,7 @@ package dagordering
 
 import (
 	"errors"
+	"time"
 
 	"github.com/Fantom-foundation/lachesis-base/hash"
 	"github.com/Fantom-foundation/lachesis-base/inter/dag"
@@ -37,6 +38,19 @@ var (
 )
 
 func verifC14(shape int, withFailure, withDup, tightLimits bool) {
+	verifC14x(shape, withFailure, withDup, tightLimits, false)
+}
+
+// clearDuring: while a push is inside the buffer (in its k-th Check or Process callback, k symbolic) ANOTHER
+// goroutine calls Clear().  In the engine the mutexes keep their lock state (sym.TrackMutexes): if Clear has to
+// wait for the buffer's lock it is parked and completes right after the push returns; natively Clear runs in a
+// real goroutine and the callback waits for it for at most 300 ms.
+func verifC14x(shape int, withFailure, withDup, tightLimits, clearDuring bool) {
+	sym.TrackMutexes(clearDuring)
+	clearAt, callbacks, pendingClear := -1, 0, false
+	if clearDuring {
+		clearAt = sym.Choice("clearAt", 6)
+	}
 	sh := vShapes[shape]
 	n := len(sh)
 	ids := make([]hash.Event, n)
@@ -93,8 +107,29 @@ func verifC14(shape int, withFailure, withDup, tightLimits bool) {
 		}
 		panic("callback with an unknown event object")
 	}
-	buf := New(limit, Callback{
+	var buf *EventsBuffer
+	otherGoroutineClears := func() {
+		if callbacks++; callbacks-1 != clearAt {
+			return
+		}
+		sym.Reach("clear-during-push")
+		if sym.Symbolic() {
+			if sym.RunUntilBlocked(func() { buf.Clear() }) {
+				pendingClear = true // parked on the buffer's lock until the push is over
+				sym.Reach("clear-waited-for-the-lock")
+			}
+			return
+		}
+		done := make(chan struct{})
+		go func() { buf.Clear(); close(done) }()
+		select {
+		case <-done:
+		case <-time.After(300 * time.Millisecond):
+		}
+	}
+	buf = New(limit, Callback{
 		Process: func(e dag.Event) error {
+			otherGoroutineClears()
 			c := find(e)
 			c.processed++
 			if c.released > 0 {
@@ -123,6 +158,7 @@ func verifC14(shape int, withFailure, withDup, tightLimits bool) {
 			return ok
 		},
 		Check: func(e dag.Event, parents dag.Events) error {
+			otherGoroutineClears()
 			c := find(e)
 			sym.Assert(len(parents) == len(e.Parents()), "Check receives every parent")
 			if c.node == failNode && failCheck {
@@ -135,6 +171,10 @@ func verifC14(shape int, withFailure, withDup, tightLimits bool) {
 		c := mk(node, slot)
 		copies = append(copies, c)
 		buf.PushEvent(c, "peer")
+		if pendingClear {
+			pendingClear = false
+			buf.Clear() // the parked Clear gets the lock now
+		}
 		tot := buf.Total()
 		sym.Assert(tot.Num <= limit.Num && tot.Size <= limit.Size, "the buffer holds no more events or bytes than its limits after every push")
 	}
@@ -161,7 +201,7 @@ func verifC14(shape int, withFailure, withDup, tightLimits bool) {
 			allProcessed = false
 		}
 	}
-	if !withFailure && !tightLimits {
+	if !withFailure && !tightLimits && !clearDuring {
 		sym.Assert(allProcessed, "with sufficient limits and no failures every event of the parents-closed set is processed")
 		sym.Reach("all-processed")
 	}
@@ -180,3 +220,5 @@ func VerifH_C14_fail4()    { verifC14(4, true, false, false) }
 func VerifH_C14_limits2()  { verifC14(2, false, false, true) }
 func VerifH_C14_limits3()  { verifC14(3, false, false, true) }
 func VerifH_C14_faildup2() { verifC14(2, true, true, false) }
+func VerifH_C14_clear0()   { verifC14x(0, false, false, false, true) }
+func VerifH_C14_clear3()   { verifC14x(3, false, false, false, true) }
